@@ -518,6 +518,22 @@ def has_t_operand(j):
         ('inv' in j and has_t_operand(j['inv']))
 
 
+GLOM_OPERAND = ('and', 'or', 'not', 'mexpr', 'M', 'msub')
+
+
+def ops_outside(j):
+    """(some operator has only plain Python operands, is the result a glom spec object)"""
+    if 'leaf' in j:
+        return False, j['leaf'].get('k') in GLOM_OPERAND
+    if 'inv' in j:
+        o, g = ops_outside(j['inv'])
+        return o or not g, True
+    a, b = j.get('and') or j.get('or')
+    oa, ga = ops_outside(a)
+    ob, gb = ops_outside(b)
+    return oa or ob or not (ga or gb), True
+
+
 def targets_for(atoms, rng, with_faults=True):
     """enumerate every truth assignment of the slot atoms (+ one faulting value per slot)"""
     base = [jv(0), jv(0), jv(0), jv(0)]
@@ -704,6 +720,8 @@ def generate(rng, tier, scale, **focus):
         ops = g.optree(rng.choice([1, 2, 3, 4]), slots, atoms)
         if has_t_operand(ops):
             continue                 # T has its own & | ~ (it records them): that is C02's subject
+        if ops_outside(ops)[0]:
+            continue                 # `~7`, `int | None`: resolved by Python's own types
         try:
             build_ops(ops)
         except TypeError:
@@ -760,6 +778,11 @@ def nontrivial(case, verdict):
                                                         ('type', 'instance_of', 'equal_to', 'one_of', 'validate'))):
         return True
     return not verdict.get('branch', '').endswith(':pass')
+
+
+def classify(case, verdict):
+    """name of the known finding a failing case is an instance of (decided by the Lean driver)"""
+    return verdict.get('known') or None
 
 
 def shrink(case):
